@@ -172,3 +172,70 @@ def in_try_catching(node, names=("Exception", "BaseException")):
 def short(node, n=100):
     s = " ".join(norm(node).split())
     return s if len(s) <= n else s[:n - 3] + "..."
+
+
+_PM_CACHE = {}
+
+
+def pm(text, pattern):
+    """Pattern match with metavariables: `$name` in `pattern` matches one identifier, the same one at every occurrence.
+    Everything else is literal (normalised source text).  Returns the binding dict or None.  Rules use it instead of
+    literal text comparison so that renaming a local variable does not change any verdict."""
+    import re
+    rx = _PM_CACHE.get(pattern)
+    if rx is None:
+        parts = re.split(r"(\$[A-Za-z_]\w*)", pattern)
+        seen = set()
+        out = []
+        for p in parts:
+            if p.startswith("$") and len(p) > 1:
+                n = p[1:]
+                if n in seen:
+                    out.append("(?P=%s)" % n)
+                else:
+                    seen.add(n)
+                    out.append(r"(?<![\w.])(?P<%s>[A-Za-z_]\w*)" % n)
+                out.append(r"(?!\w)")
+            else:
+                out.append(re.escape(p))
+        rx = re.compile("".join(out))
+        _PM_CACHE[pattern] = rx
+    m = rx.search(text)
+    return m.groupdict() if m else None
+
+
+def pmall(text, *patterns):
+    """all patterns match, with consistent bindings across them for metavariables of the same name (backtracking over
+    every occurrence of each pattern)"""
+    import re
+
+    def compile_with(pat, env):
+        parts = re.split(r"(\$[A-Za-z_]\w*)", pat)
+        seen = set()
+        out = []
+        for p in parts:
+            if p.startswith("$") and len(p) > 1:
+                n = p[1:]
+                if n in env:
+                    out.append(r"(?<![\w.])" + re.escape(env[n]) + r"(?!\w)")
+                elif n in seen:
+                    out.append("(?P=%s)" % n + r"(?!\w)")
+                else:
+                    seen.add(n)
+                    out.append(r"(?<![\w.])(?P<%s>[A-Za-z_]\w*)" % n + r"(?!\w)")
+            else:
+                out.append(re.escape(p))
+        return re.compile("".join(out))
+
+    def rec(i, env):
+        if i == len(patterns):
+            return env
+        rx = compile_with(patterns[i], env)
+        for m in rx.finditer(text):
+            e2 = dict(env)
+            e2.update(m.groupdict())
+            r = rec(i + 1, e2)
+            if r is not None:
+                return r
+        return None
+    return rec(0, {})
